@@ -229,6 +229,48 @@ fn capi_names(l: &mut Local, names: &[String], rng: &mut Rng) {
             }
         }
     }
+    // ... and through the single-precision entry point (the values, infinities included, are exactly representable in
+    // both widths, so the generic decoder on the widened values is the reference)
+    for n in names {
+        println!("CASE C decode f32 {}", n);
+        for k in 0..6 {
+            let mut l32: Vec<f32> = genm::llr_vector(rng, m.cols, [7usize, 0, 4][k % 3], Some(&cw)).iter().map(|&x| x as f32).collect();
+            if k >= 3 {
+                // two infinite LLRs on variables that share a check, plus possibly a third
+                let rr = rng.below(m.rows);
+                let row0: Vec<usize> = m.e.iter().filter(|x| x.0 == rr).map(|x| x.1).collect();
+                for &v in row0.iter().take(2) {
+                    l32[v] = if rng.coin() { f32::INFINITY } else { f32::NEG_INFINITY };
+                }
+                if rng.coin() {
+                    let v = rng.below(m.cols);
+                    l32[v] = f32::INFINITY;
+                }
+            }
+            let wide: Vec<f64> = l32.iter().map(|&x| x as f64).collect();
+            let limit = [1u32, 2, 5, 1, 3, 20][k];
+            let Some(mut dd) = direct(n, m.to_sparse()) else { continue };
+            let Ok(want) = guard(|| dd.decode(&wide, limit as usize)) else {
+                l.count("generic_decoder_panics_on_infinite_input_case_skipped");
+                continue;
+            };
+            let (wret, wword) = match &want {
+                Ok(o) => (o.iterations as i32, o.codeword.clone()),
+                Err(o) => (-1, o.codeword.clone()),
+            };
+            l.eval();
+            if let Some((ret, out)) = crate::props::c19::c_decode_once_f32(alist.as_bytes(), n.as_bytes(), &l32, limit, m.cols) {
+                if ret != wret || out != wword {
+                    l.violation(
+                        "the decoder built by the C constructor for a name does not behave like the generic decoder the name denotes (single-precision entry point)",
+                        J::obj().set("name", n.clone()).set("llrs", jfs(&wide)).set("limit", limit).set("c_return", ret).set("c_output", out).set("generic", format!("{:?}", want)),
+                    );
+                    break;
+                }
+                l.count("c_f32_decodes_compared");
+            }
+        }
+    }
     // ... also when built by the FILE constructor, with the same path holding two different codes one after the other
     {
         let path = format!("/verif/target/legs/c18-names-{}.alist", std::process::id());
